@@ -36,7 +36,7 @@ Print Assumptions wf_expr_constructors.
 
 (* 4. [U] what a passing case means: the oracle of C05Check accepts an observation only if it is an error
       or a result that is well formed and deterministic *)
-Theorem oracle_sound : forall ab relift o, snd (ck (KLift ab relift o)) = true ->
+Theorem oracle_sound : forall ab relift known o, snd (ck (KLift ab relift known o)) = true ->
   relift = true /\ (o = LErr \/ exists r, o = LOk r /\ Wf_result ab r /\ Det_result r).
 Proof. exact C05Check.oracle_sound. Qed.
 Print Assumptions oracle_sound.
